@@ -315,6 +315,47 @@ def getStrategy (cls : List Char) (opts : List (List Char × OptVal)) : Strategy
       | none => none))
   else .none_
 
+/-! ## orderedPartitioner (matches `…ByteOrderedPartitioner`): tokens are byte strings
+
+`orderedToken` is a Go string; `Less` is Go's `<` on strings = byte-wise lexicographic order, a proper prefix first.
+Bytes are `Nat`s below 256.  `ParseString(str) = orderedToken(str)` keeps the TEXT Cassandra reports for a ring token
+as it is; `Hash(partitionKey) = orderedToken(partitionKey)` is the raw key. -/
+
+/-- Go's `a < b` on strings -/
+def lexLt : List Nat → List Nat → Bool
+  | _, [] => false
+  | [], _ :: _ => true
+  | a :: as, b :: bs => decide (a < b) || (a == b && lexLt as bs)
+
+/-- `orderedPartitioner.ParseString` -/
+def orderedParse (str : List Nat) : List Nat := str
+
+/-- `orderedPartitioner.Hash` -/
+def orderedHash (key : List Nat) : List Nat := key
+
+abbrev OEntry := List Nat × Host
+
+def insertEntryO (e : OEntry) : List OEntry → List OEntry
+  | [] => [e]
+  | x :: xs => if !lexLt x.1 e.1 then e :: x :: xs else x :: insertEntryO e xs
+
+/-- `newTokenRing` under the ordered partitioner: parse every token string, append, sort -/
+def buildRingO (hosts : List (Host × List (List Nat))) : List OEntry :=
+  (hosts.flatMap (fun ht => ht.2.map (fun t => (orderedParse t, ht.1)))).foldr insertEntryO []
+
+def oTokAt {β : Type} (l : List (List Nat × β)) (i : Nat) : List Nat :=
+  match l[i]? with
+  | some e => e.1
+  | none => []
+
+/-- the index `GetHostForToken` computes, with `orderedToken.Less` as the order -/
+def lookupIdxO {β : Type} (l : List (List Nat × β)) (t : List Nat) : Nat :=
+  let p := sortSearch l.length (fun i => !(lexLt (oTokAt l i) t))
+  if p ≥ l.length then 0 else p
+
+def getHostForTokenO (ring : List OEntry) (t : List Nat) : Option OEntry :=
+  if ring.length = 0 then none else ring[lookupIdxO ring t]?
+
 /-! ## Specification (Cassandra), written from Appendix E3–E5 of DESIGN.md, independent of the code above -/
 namespace Spec
 
@@ -394,6 +435,29 @@ def walk (tp : Topo) (dcs : List Nat) (rf : Nat → Nat) : St → List Host → 
 /-- E5 NetworkTopologyStrategy.calculateNaturalEndpoints(t): `rfs` = the keyspace's datacenter → rf options. -/
 def nts (ring : List Entry) (rfs : List (Nat × Nat)) (t : Int) : List Host :=
   (walk (topoOf ring) (rfs.map (·.1)) (rfOf rfs) init ((clockwise ring t).map (·.2))).replicas
+
+/-! ### ByteOrderedPartitioner (E2): a token IS a byte string (the partition key); order = unsigned byte-wise
+lexicographic, shorter prefix first.  In `system.local` / `system.peers` the token is reported as TEXT: its lowercase
+hexadecimal rendering (`ByteOrderedPartitioner.tokenFactory.toString = Hex.bytesToHex`; the Java driver parses it back
+with `Bytes.fromHexString`). -/
+
+def hexDigit (n : Nat) : Nat := if n < 10 then 48 + n else 87 + n
+
+/-- `Hex.bytesToHex`, as ASCII codes -/
+def hexOf : List Nat → List Nat
+  | [] => []
+  | b :: bs => hexDigit (b / 16) :: hexDigit (b % 16) :: hexOf bs
+
+/-- index of the owner of `key` on the ring (ascending by token): first token ≥ key, else 0 -/
+def ownerIdxO {β : Type} (ring : List (List Nat × β)) (key : List Nat) : Nat :=
+  let i := ring.findIdx (fun e => !lexLt e.1 key)
+  if i < ring.length then i else 0
+
+def ownerO {β : Type} (ring : List (List Nat × β)) (key : List Nat) : Option (List Nat × β) :=
+  ring[ownerIdxO ring key]?
+
+/-- the ring as the driver receives it: every token as the text Cassandra reports -/
+def reported (ring : List OEntry) : List (Host × List (List Nat)) := ring.map (fun e => (e.2, [hexOf e.1]))
 
 /-! ### keyspace replication options (what `system_schema.keyspaces.replication` / `strategy_options` mean) -/
 
